@@ -193,6 +193,113 @@ theorem set_bc_type_is_last_assignment (g : Grid) (b : BC) (hb : Partition g b) 
   exact (applyAll_spec g.nf pairs b hb.1
     (fun p hp' => isBf_lt g _ (prepare_ok g fa cond pairs w hp p hp'))).2.1 f
 
+/-! ### histories: constructor followed by ANY sequence of `set_bc` / `internal_to_dirichlet` -/
+
+/-- The three flag arrays after any history depend only on the last `dir`/`rob` written per
+    (component, face): for every component `b` and every face `f` (boundary, interior or out of
+    range) the triple (is_neu, is_dir, is_rob) equals `lastType` over the concatenation of the
+    pairs each operation really executed, starting from the default — Neumann on every boundary
+    face, which on split fractured grids includes the internal-boundary (fracture) faces.
+    Failing `set_bc` calls contribute their executed prefix (or nothing if validation failed);
+    `internal_to_dirichlet` contributes a `dir` for every fracture face. Every component also
+    satisfies the partition invariant. -/
+theorem bcv_history_last_assignment (g : Grid) (dim : Nat) (faces : Option Faces) (cond : Option Conds)
+    (v0 : VBC) (h0 : mkVector g dim faces cond = .ok v0) (ops : List VOp) :
+    (runOps g v0 ops).length = dim ∧
+    ∀ b ∈ runOps g v0 ops, Partition g b ∧
+      ∀ f, b.at f = lastType f (g.isBf f, false, false)
+        (executed g (.setBc faces cond) ++ ops.flatMap (executed g)) := by
+  -- invariant carried along the history
+  have hstep : ∀ (v : VBC) (acc : List (Nat × Cond)) (o : VOp),
+      (v.length = dim ∧ ∀ b ∈ v, Partition g b ∧ ∀ f, b.at f = lastType f (g.isBf f, false, false) acc) →
+      ((stepV g v o).length = dim ∧ ∀ b ∈ stepV g v o, Partition g b ∧
+        ∀ f, b.at f = lastType f (g.isBf f, false, false) (acc ++ executed g o)) := by
+    intro v acc o ⟨hl, hv⟩
+    have hpart : ∀ (a a' : BC), Partition g a → a'.wf g.nf →
+        (∀ f, a'.at f = lastType f (a.at f) (executed g o)) → Partition g a' := by
+      intro a a' hPa hw' hat'
+      refine ⟨hw', fun f => ?_⟩
+      rcases lastType_cases f (executed g o) (a.at f) with h | ⟨h, q, hq, hqf, _⟩
+      · have e := hat' f; rw [h] at e
+        simp only [BC.at, Prod.mk.injEq] at e
+        obtain ⟨e1, e2, e3⟩ := e
+        exact ⟨fun hb => by rw [e1, e2, e3]; exact (hPa.2 f).1 hb,
+               fun hb => by simp only [BC.at, e1, e2, e3]; exact (hPa.2 f).2 hb⟩
+      · have hbf : g.isBf f = true := by
+          have := executed_on_boundary g o q hq; rw [hqf] at this; exact this
+        refine ⟨fun _ => ?_, fun hn => by rw [hbf] at hn; cases hn⟩
+        have e := hat' f
+        rcases h with h | h <;>
+        · rw [h] at e
+          simp only [BC.at, Prod.mk.injEq] at e
+          obtain ⟨e1, e2, e3⟩ := e
+          rw [e1, e2, e3]; rfl
+    cases o with
+    | setBc fa co =>
+      simp only [stepV, setBcV, List.length_map, List.mem_map]
+      refine ⟨hl, ?_⟩
+      rintro b ⟨a, ha, rfl⟩
+      obtain ⟨hPa, hata⟩ := hv a ha
+      obtain ⟨hw', hat'⟩ := setBc_spec g a hPa.1 fa co
+      exact ⟨hpart a _ hPa hw' hat', fun f => by rw [hat' f, hata f, lastType_append]⟩
+    | internalToDirichlet =>
+      simp only [stepV, List.length_map, List.mem_map]
+      refine ⟨hl, ?_⟩
+      rintro b ⟨a, ha, rfl⟩
+      obtain ⟨hPa, hata⟩ := hv a ha
+      obtain ⟨hw', hat'⟩ := internalToDirichlet_spec g a hPa.1
+      exact ⟨hpart a _ hPa hw' hat', fun f => by rw [hat' f, hata f, lastType_append]⟩
+  have hrun : ∀ (ops : List VOp) (v : VBC) (acc : List (Nat × Cond)),
+      (v.length = dim ∧ ∀ b ∈ v, Partition g b ∧ ∀ f, b.at f = lastType f (g.isBf f, false, false) acc) →
+      ((runOps g v ops).length = dim ∧ ∀ b ∈ runOps g v ops, Partition g b ∧
+        ∀ f, b.at f = lastType f (g.isBf f, false, false) (acc ++ ops.flatMap (executed g))) := by
+    intro ops
+    induction ops with
+    | nil => intro v acc hv; simpa [runOps] using hv
+    | cons o os ih =>
+      intro v acc hv
+      have := ih (stepV g v o) (acc ++ executed g o) (hstep v acc o hv)
+      simpa [runOps, List.flatMap_cons, List.append_assoc] using this
+  -- the constructor is the default arrays followed by one `set_bc`
+  have hinit : (List.replicate dim (BC.init g)).length = dim ∧
+      ∀ b ∈ List.replicate dim (BC.init g), Partition g b ∧
+        ∀ f, b.at f = lastType f (g.isBf f, false, false) [] := by
+    refine ⟨by simp, fun b hb => ?_⟩
+    rw [(List.mem_replicate.mp hb).2]
+    exact ⟨partition_init g, fun f => at_init g f⟩
+  have h1 := hstep _ [] (.setBc faces cond) hinit
+  have hv0 : v0 = stepV g (List.replicate dim (BC.init g)) (.setBc faces cond) := by
+    unfold mkVector at h0
+    simp only at h0
+    split at h0
+    · simp only [Except.ok.injEq] at h0; rw [← h0]; rfl
+    · cases h0
+  rw [hv0]
+  simpa using hrun ops _ _ h1
+
+/-- Internal-boundary default on split fractured grids: a fracture face that no executed pair
+    names is Neumann (and nothing else) in every component, after any history. -/
+theorem bcv_internal_boundary_default (g : Grid) (dim : Nat) (faces : Option Faces) (cond : Option Conds)
+    (v0 : VBC) (h0 : mkVector g dim faces cond = .ok v0) (ops : List VOp) (f : Nat)
+    (hf : f < g.nf) (hfrac : g.frac f = true)
+    (hnot : ∀ p ∈ executed g (.setBc faces cond) ++ ops.flatMap (executed g), p.1 ≠ f) :
+    ∀ b ∈ runOps g v0 ops, b.at f = (true, false, false) := by
+  intro b hb
+  have h := ((bcv_history_last_assignment g dim faces cond v0 h0 ops).2 b hb).2 f
+  have hbf : g.isBf f = true := by simp [Grid.isBf, hf, hfrac]
+  rw [h, hbf]
+  rcases lastType_cases f _ (true, false, false) with h' | ⟨_, q, hq, hqf, _⟩
+  · exact h'
+  · exact absurd hqf (hnot q hq)
+
+/-- `internal_to_dirichlet` (as the property requires it): afterwards every fracture face is
+    Dirichlet only, every other face is unchanged. -/
+theorem internal_to_dirichlet_spec (g : Grid) (b : BC) (hb : Partition g b) (f : Nat) :
+    (internalToDirichlet g b).at f =
+      if f < g.nf ∧ g.frac f = true then (false, true, false) else b.at f := by
+  rw [(internalToDirichlet_spec g b hb.1).2 f]
+  simp only [executed, lastType_all_dir, List.mem_filter, List.mem_range]
+
 /-! ### error cases (all `ValueError` in the code, except the assertion) -/
 
 /-- a mask of the wrong size is rejected -/
@@ -270,6 +377,17 @@ example :
       = some (List.replicate 2 ⟨[false, true, true, false, false, true],
                                 [true, false, false, false, false, false],
                                 [false, false, false, false, false, false]⟩) := by decide
+
+/-- known finding: `internal_to_dirichlet` AS CODED leaves the Robin flag of a fracture face set:
+    face 2 (fracture) was Robin and ends up Dirichlet AND Robin; the property-following version
+    clears it. -/
+example :
+    (mkVector gEx 1 (some (.idx [2])) (some (.one .rob))).toOption.map
+      (fun v => (v.map (internalToDirichletCoded gEx), v.map (internalToDirichlet gEx)))
+      = some ([⟨[true, true, false, false, false, true], [false, false, true, false, false, false],
+                [false, false, true, false, false, false]⟩],
+              [⟨[true, true, false, false, false, true], [false, false, true, false, false, false],
+                [false, false, false, false, false, false]⟩]) := by decide
 
 example : parseCond "DiR" = .dir ∧ parseCond "neu" = .neu ∧ parseCond "Rob" = .rob ∧ parseCond "dirichlet" = .bad := by
   decide +kernel
